@@ -88,11 +88,22 @@ class Interp:
         self.doc = doc
         self.rule_cache = {}
         self.in_progress = set()
+        self.vars_in_progress = set()
 
     # ------------------------------------------------------------------ queries
     def var_results(self, name, scope):
         rhs, owner = scope.lookup(name)
         t = rhs[0]
+        key = (id(owner), name)
+        if key in self.vars_in_progress:
+            raise Err("variable defined in terms of itself")
+        self.vars_in_progress.add(key)
+        try:
+            return self._var_results(rhs, owner, t)
+        finally:
+            self.vars_in_progress.discard(key)
+
+    def _var_results(self, rhs, owner, t):
         if t == "lit":
             return [R(rhs[1])], True
         if t == "query":
